@@ -38,6 +38,14 @@ def foreign_set(r, z):
     nz = z.size
     u = r.random()
     c = r.choice([-1., 0., 0.5], nz)
+    if u < 0.12:
+        # pieces lifted through exponential cones (the support model keeps them in a list of their own)
+        k = int(r.integers(0, 3))
+        if k == 0:
+            return [rso.exp(z[0] - c[0]) <= float(r.choice([0.5, 0.9]))]
+        if k == 1:
+            return [rso.log(z[0] - c[0] + 2) >= float(r.choice([0.75, 1.0])), z <= 3]
+        return [rso.entropy(z + 2) >= float(nz) * 0.3, z >= -1.5, z <= c + 0.5]
     if u < 0.25:
         return [rso.norm(z - c, 3) <= float(r.choice([0.1, 0.5]))]          # p-norm piece (second-order-cone tower)
     if u < 0.45:
